@@ -132,7 +132,8 @@ let case (ln : string) =
         let lv = Stdlib.Array.of_list (Green.leaves root) in
         let reqs = Stdlib.List.filter (fun x -> x <> "") (split_on ',' repl) in
         Buffer.add_string buf (Stdlib.String.concat ";" (Stdlib.List.map (fun r ->
-          let fields = match split_on ':' r with [i; h] -> Some (i, h, "-") | [i; h; v] -> Some (i, h, v) | _ -> None in
+          (* the 4th field says through which public API the harness makes the token; the model token is the same *)
+          let fields = match split_on ':' r with [i; h] -> Some (i, h, "-") | [i; h; v] -> Some (i, h, v) | [i; h; v; _] -> Some (i, h, v) | _ -> None in
           match fields with
           | Some (i, h, v) ->
             let i = int_of_string i in
